@@ -18,5 +18,6 @@ for name, f in F.REGEN.items():
     ok = f(ctx) and ok
 sys.exit(0 if ok else 1)
 PY
+python3 checklib/gen_registry.py
 (cd lean && lake build)
 echo setup-ok
